@@ -9,10 +9,12 @@ import (
 	"runtime/debug"
 	"sort"
 	"strings"
+	"testing/fstest"
 	"time"
 
 	"github.com/risor-io/risor"
 	"github.com/risor-io/risor/compiler"
+	"github.com/risor-io/risor/importer"
 	"github.com/risor-io/risor/object"
 	ros "github.com/risor-io/risor/os"
 	"github.com/risor-io/risor/parser"
@@ -60,6 +62,8 @@ type session struct {
 	stdout *rz.OutFile
 	seen   int
 	host   []hostGlobal
+	// modules: when set, the session's configuration has an importer serving these files
+	modules fstest.MapFS
 }
 
 func newSession(deadline time.Duration) (*session, error) {
@@ -77,6 +81,10 @@ func (s *session) configure() error {
 	opts := []risor.Option{risor.WithOS(vos)}
 	for _, h := range s.host {
 		opts = append(opts, risor.WithGlobal(h.name, h.val))
+	}
+	if s.modules != nil {
+		names := risor.NewConfig(opts...).GlobalNames()
+		opts = append(opts, risor.WithImporter(importer.NewFSImporter(importer.FSImporterOptions{GlobalNames: names, SourceFS: s.modules})))
 	}
 	s.cfg = risor.NewConfig(opts...)
 	c, err := compiler.New(s.cfg.CompilerOpts()...)
@@ -214,20 +222,21 @@ type failure struct {
 }
 
 type out struct {
-	Programs   int       `json:"programs"`
-	Histories  int       `json:"histories"`
-	Pieces     int       `json:"pieces"`
-	Rejected   int       `json:"rejected"`
-	Failed     int       `json:"failed"`
-	Globals    int       `json:"globals_compared"`
-	Hosted     int       `json:"host_provided_globals"`
-	Nested     int       `json:"stored_function_sessions"`
-	Discarded  int       `json:"discarded"`
-	Sigs       []string  `json:"sigs"`
-	Fail       []failure `json:"fail"`
-	Samples    []string  `json:"samples"`
-	Harness    []string  `json:"harness"`
-	WholeAgree int       `json:"whole_agree"`
+	Programs       int       `json:"programs"`
+	Histories      int       `json:"histories"`
+	Pieces         int       `json:"pieces"`
+	Rejected       int       `json:"rejected"`
+	Failed         int       `json:"failed"`
+	Globals        int       `json:"globals_compared"`
+	Hosted         int       `json:"host_provided_globals"`
+	Nested         int       `json:"stored_function_sessions"`
+	ModuleSessions int       `json:"module_sessions"`
+	Discarded      int       `json:"discarded"`
+	Sigs           []string  `json:"sigs"`
+	Fail           []failure `json:"fail"`
+	Samples        []string  `json:"samples"`
+	Harness        []string  `json:"harness"`
+	WholeAgree     int       `json:"whole_agree"`
 }
 
 func rejectPiece(kind string, k int, consts, funcs []string, vars ...string) piece {
@@ -251,6 +260,12 @@ func rejectPiece(kind string, k int, consts, funcs []string, vars ...string) pie
 		if len(vars) > 0 {
 			return piece{Text: fmt.Sprintf("if true { %s := 1; nosuchname_%d }", vars[k%len(vars)], k), Reject: "block-shadow-undefined"}
 		}
+	case "undefined-in-loop":
+		// rejected while the compiler is inside a loop, before the loop has emitted anything
+		forms := []string{"for nosuchname_%d { }", "for { nosuchname_%d }", "for rjl := range nosuchname_%d { }", "for nosuchname_%d { break }"}
+		return piece{Text: fmt.Sprintf(forms[k%len(forms)], k), Reject: "undefined-in-loop"}
+	case "control-outside-loop":
+		return piece{Text: []string{"break", "continue"}[k%2], Reject: "control-outside-loop"}
 	case "undefined-in-func-with-strings":
 		// the failing function body holds string constants and map keys that later pieces use too
 		forms := []string{`func rjs_%d() { x := "ab"; y := {"k": "z", "a": "b"}; return nosuchname_%d }`, `rjt_%d := func() { return ["hello", "x y", "0", "a", "c", nosuchname_%d] }`,
@@ -514,6 +529,22 @@ func worker(kind string, data json.RawMessage) any {
 			o.Fail = append(o.Fail, f)
 		}
 	}
+	if c.Kind == "modules" {
+		r0 := mon.NewRand(c.PartSeed).Split("modules")
+		for i := c.From; i < c.From+c.N; i++ {
+			sig, detail, script, pieces := moduleSession(r0.SplitN(i), i)
+			o.Programs++
+			o.Histories++
+			o.Pieces += pieces
+			o.ModuleSessions++
+			if sig != "" {
+				addFail(failure{Index: i, Sig: "module-session:" + sig, Detail: detail, Script: script})
+				continue
+			}
+			o.Sigs = append(o.Sigs, fmt.Sprintf("module-session:%d:pieces=%d", i%40, pieces))
+		}
+		return o
+	}
 	if c.Kind == "nested" {
 		r0 := mon.NewRand(c.PartSeed).Split("nested")
 		for i := c.From; i < c.From+c.N; i++ {
@@ -633,7 +664,7 @@ func worker(kind string, data json.RawMessage) any {
 			pieces = append(pieces, piece{Stmts: cur})
 			if c.Rejects && hi%2 == 1 {
 				// insert rejected pieces at random positions
-				kinds := []string{"syntax", "undefined", "const-assign", "dup-func", "const-incdec", "undefined-in-func", "block-shadow-undefined", "undefined-in-func-with-strings"}
+				kinds := []string{"syntax", "undefined", "const-assign", "dup-func", "const-incdec", "undefined-in-func", "block-shadow-undefined", "undefined-in-func-with-strings", "undefined-in-loop", "control-outside-loop"}
 				if c.D20 {
 					kinds = []string{"effect-then-reject"}
 				}
@@ -688,7 +719,7 @@ func worker(kind string, data json.RawMessage) any {
 }
 
 func drive(d *mon.Driver, replay string) int {
-	d.Rule = "a generated program's top-level statements are partitioned into consecutive pieces (all partitions for <=5 statements, sampled plus the one-statement-per-piece partition above), optionally with rejected pieces (syntax error, undefined name at top level or inside a function body, constant reassignment or ++/--, duplicate function) inserted at random positions; statements that fail at run time make failing pieces. The pieces are fed to one compiler and one VM with the REPL's protocol (Parse+Compile per piece, Run, SetIP(end) after a failure) and, as the reference, to the reference interpreter piece by piece: per piece status (accepted/rejected/failed), value, error class and printed output must agree, and at the end every global. Leading plain declarations of every third history are handed to the session as host-provided globals (WithGlobal) instead of being evaluated. Plus stored-function sessions (a function made inside another function, at depth 2-3, returned / kept in a list or map / made in a method callback, reads and writes globals; later pieces change the globals at top level and call it again), and long sessions (thousands of pieces, a third failing). distinct: (program feature signature, #pieces, #rejected, #failing)"
+	d.Rule = "a generated program's top-level statements are partitioned into consecutive pieces (all partitions for <=5 statements, sampled plus the one-statement-per-piece partition above), optionally with rejected pieces (syntax error, undefined name at top level or inside a function body, constant reassignment or ++/--, duplicate function) inserted at random positions; statements that fail at run time make failing pieces. The pieces are fed to one compiler and one VM with the REPL's protocol (Parse+Compile per piece, Run, SetIP(end) after a failure) and, as the reference, to the reference interpreter piece by piece: per piece status (accepted/rejected/failed), value, error class and printed output must agree, and at the end every global. Leading plain declarations of every third history are handed to the session as host-provided globals (WithGlobal) instead of being evaluated. Plus stored-function sessions (a function made inside another function, at depth 2-3, returned / kept in a list or map / made in a method callback, reads and writes globals; later pieces change the globals at top level and call it again), module sessions (an imported file module with state of its own whose functions are called before and after pieces that add script globals — names also equal to the module's — with the expected values computed by a direct simulation), and long sessions (thousands of pieces, a third failing). distinct: (program feature signature, #pieces, #rejected, #failing)"
 	d.Assume = []string{"the protocol is driven through public calls in the same order as cmd/risor/repl getEvaluator (the evaluator closure itself lives in a separate Go module)", "pieces are cut at top-level statement boundaries; generated programs never reference functions declared in later pieces"}
 	var cases []mon.Case
 	if replay != "" {
@@ -713,6 +744,10 @@ func drive(d *mon.Driver, replay string) int {
 		nn := d.N(600, 20000)
 		for from := 0; from < nn; from += 200 {
 			cases = append(cases, mon.NewCase(fmt.Sprintf("nested-%d", from), "nested", caseData{Batch: eng.Batch{From: from, N: 200}, Kind: "nested", PartSeed: pseed}))
+		}
+		nm := d.N(400, 10000)
+		for from := 0; from < nm; from += 200 {
+			cases = append(cases, mon.NewCase(fmt.Sprintf("modules-%d", from), "modules", caseData{Batch: eng.Batch{From: from, N: 200}, Kind: "modules", PartSeed: pseed}))
 		}
 		for _, n := range []int{50, 1200, d.N(2500, 6000)} {
 			cases = append(cases, mon.NewCase(fmt.Sprintf("long-%d", n), "long", caseData{Kind: "long", Long: n}))
@@ -752,6 +787,7 @@ func drive(d *mon.Driver, replay string) int {
 		d.Event("final-globals-compared", o.Globals)
 		d.Event("host-provided-globals", o.Hosted)
 		d.Event("stored-function-sessions", o.Nested)
+		d.Event("module-sessions", o.ModuleSessions)
 		d.Event("programs-discarded-undecided", o.Discarded)
 		for _, s := range o.Sigs {
 			d.Distinct(s)
